@@ -167,7 +167,7 @@ func (e *OpEngine) RunInitializerChecks(maxRank int) {
 							return
 						}
 						ge, we := g.E, want
-						if ge.Key() != we.Key() {
+						if !e.sameExpr(ge, we, nil) {
 							verdict, wit := e.numericCompare(ge, we, nil)
 							if verdict == 1 {
 								e.Findings = append(e.Findings, Finding{Method: e.curMethod, Rule: "S9b.plumbing", Construct: key, What: what, Pos: pos,
